@@ -750,9 +750,14 @@ pub fn decrypt_chunk_with_keys(
     key_store: &TactKeyStore,
     block_index: usize,
 ) -> BlteResult<Vec<u8>> {
-    if data.len() < 17 {
+    // Smallest well-formed encrypted chunk: key name size (1) + key name (8)
+    // + IV size (1) + 4-byte IV + encryption type (1). The encrypted payload
+    // behind that header may be as short as the single inner mode byte the
+    // encoder writes for empty content, so it must not be counted here.
+    const MIN_ENCRYPTED_HEADER: usize = 1 + 8 + 1 + 4 + 1;
+    if data.len() < MIN_ENCRYPTED_HEADER {
         return Err(BlteError::CompressionError(format!(
-            "Encrypted chunk too short: {} bytes (minimum 17)",
+            "Encrypted chunk too short: {} bytes (minimum {MIN_ENCRYPTED_HEADER})",
             data.len()
         )));
     }
